@@ -103,7 +103,7 @@ def lean_build_and_audit() -> dict:
             res["audit_ok"] = a.returncode == 0
             res["audit_log"] = out[-3000:] if a.returncode != 0 else ""
             # "'IoosQc.C03_gross' depends on axioms: [propext, Quot.sound]" / "does not depend on any axioms"
-            for m in re.finditer(r"'([\w.]+)' (?:depends on axioms: \[([^\]]*)\]|does not depend on any axioms)", out):
+            for m in re.finditer(r"'([\w.\x27]+)' (?:depends on axioms: \[([^\]]*)\]|does not depend on any axioms)", out):
                 name = m.group(1).split(".")[-1]
                 axs = [x.strip() for x in (m.group(2) or "").replace("\n", " ").split(",") if x.strip()]
                 theorems[name] = axs
@@ -147,6 +147,7 @@ def load_known(prop: str):
         kv = dict(re.findall(r"(\w+)=(\S+)", line))
         if kv.get("property") == prop and "id" in kv:
             text = re.sub(r"^known:\s*", "", line)
+            text = re.sub(r"^property=\S+\s*", "", text)
             out[kv["id"]] = text
     return out
 
